@@ -454,18 +454,25 @@ func (p *Process) stopProcess(cancelReadinessFuncs bool) error {
 	if isStringDefined(p.procConf.ShutDownParams.ShutDownCommand) {
 		return p.doConfiguredStop(p.procConf.ShutDownParams)
 	}
-	err := p.command.Stop(p.procConf.ShutDownParams.Signal, p.procConf.ShutDownParams.ParentOnly)
-	if errors.Is(err, syscall.ESRCH) || errors.Is(err, os.ErrProcessDone) {
-		// the command exited by itself a moment ago: there is nothing left to terminate, which is
-		// what the caller asked for (an update or restart must not fail half-way because of it)
-		log.Debug().Msgf("%s has already exited", p.getName())
-		err = nil
-	}
+	err := p.signalCommand(p.procConf.ShutDownParams.Signal, p.procConf.ShutDownParams.ParentOnly)
 	if err != nil {
 		log.Error().Err(err).Msgf("terminating %s failed", p.getName())
 	}
 	if p.procConf.ShutDownParams.ShutDownTimeout != UndefinedShutdownTimeoutSec {
 		return p.forceKillOnTimeout()
+	}
+	return err
+}
+
+// signalCommand signals the command. A command that exited by itself a moment ago (reaped, but the
+// process goroutine has not reported the new state yet) cannot be signalled any more: nothing is
+// left to terminate, which is what the caller asked for - an update, restart or shutdown must not
+// fail half-way because of it.
+func (p *Process) signalCommand(sig int, parentOnly bool) error {
+	err := p.command.Stop(sig, parentOnly)
+	if errors.Is(err, syscall.ESRCH) || errors.Is(err, os.ErrProcessDone) {
+		log.Debug().Msgf("%s has already exited", p.getName())
+		return nil
 	}
 	return err
 }
@@ -482,7 +489,7 @@ func (p *Process) forceKillOnTimeout() error {
 	case errors.Is(err, context.DeadlineExceeded):
 		verifGate(p, "stop.kill")
 		log.Debug().Msgf("process failed to shut down within %d seconds, sending %d", p.procConf.ShutDownParams.ShutDownTimeout, syscall.SIGKILL)
-		return p.command.Stop(int(syscall.SIGKILL), p.procConf.ShutDownParams.ParentOnly)
+		return p.signalCommand(int(syscall.SIGKILL), p.procConf.ShutDownParams.ParentOnly)
 	default:
 		log.Error().Err(err).Msgf("terminating %s with timeout %d failed", p.getName(), p.procConf.ShutDownParams.ShutDownTimeout)
 		return err
@@ -506,7 +513,7 @@ func (p *Process) doConfiguredStop(params types.ShutDownParams) error {
 	if err := cmd.Run(); err != nil {
 		// the process termination timedout and it will be killed
 		log.Error().Msgf("terminating %s with timeout %d failed - %s", p.getName(), timeout, err.Error())
-		return p.command.Stop(int(syscall.SIGKILL), false)
+		return p.signalCommand(int(syscall.SIGKILL), false)
 	}
 	return nil
 }
